@@ -45,6 +45,46 @@ fn seam(order: &mut Vec<usize>) {
     });
 }
 
+thread_local! {
+    /// (steps taken, budget) of the library call in progress; budget 0 = unlimited.
+    static STEPS: std::cell::Cell<(u64, u64)> = const { std::cell::Cell::new((0, 0)) };
+}
+
+const BUDGET_MSG: &str = "verif: step budget exceeded";
+
+/// Target of the library's `sched_point` hook while C20 runs: logical-step
+/// accounting for the ring search of `Space::knn` (site 5). Bounded liveness is
+/// decided in simulated steps, not in seconds: when the budget of the call in
+/// progress is used up the call is abandoned by unwinding out of the library.
+fn step_hook(site: u32) {
+    if site != 5 {
+        return;
+    }
+    let (n, b) = STEPS.with(|s| s.get());
+    STEPS.with(|s| s.set((n + 1, b)));
+    if b != 0 && n + 1 > b {
+        panic!("{}", BUDGET_MSG);
+    }
+}
+
+fn with_budget<T>(budget: u64, f: impl FnOnce() -> T + std::panic::UnwindSafe) -> Result<(T, u64), String> {
+    STEPS.with(|s| s.set((0, budget)));
+    let r = std::panic::catch_unwind(f);
+    let (n, _) = STEPS.with(|s| s.get());
+    STEPS.with(|s| s.set((0, 0)));
+    match r {
+        Ok(v) => Ok((v, n)),
+        Err(p) => {
+            let msg = p.downcast_ref::<String>().cloned().or_else(|| p.downcast_ref::<&str>().map(|s| s.to_string())).unwrap_or_default();
+            if msg == BUDGET_MSG {
+                Err(format!("no result within {} ring-search steps (bounded liveness)", budget))
+            } else {
+                Err("panicked".into())
+            }
+        }
+    }
+}
+
 fn factorial(m: usize) -> u64 {
     (1..=m as u64).product::<u64>().max(1)
 }
@@ -322,6 +362,10 @@ fn check_spheres(sph: &[(DVec3, f64)]) -> Result<(), String> {
     Ok(())
 }
 
+thread_local! {
+    static KNN_STEPS: std::cell::Cell<u64> = const { std::cell::Cell::new(0) };
+}
+
 struct KnnCase {
     anchor: DVec3,
     width: DVec3,
@@ -390,12 +434,21 @@ fn gen_knn(rng: &mut Rng, cubic_only: bool, max_n: usize) -> KnnCase {
 fn check_knn(c: &KnnCase) -> Result<(), String> {
     let (anchor, width, mcw, k) = (c.anchor, c.width, c.max_cell_width, c.k);
     let pts = c.pts.clone();
-    let r = std::panic::catch_unwind(move || lib::space_knn(anchor, width, mcw, &pts, k));
-    let nn = match r {
-        Ok(x) => x,
-        Err(_) => return Err("knn panicked".into()),
-    };
     let n = c.pts.len();
+    // Ring-search steps a correct search can need: for every particle, rings until
+    // r * (smallest cell width) exceeds the diagonal of the box (the loop's own
+    // distance-based exit), plus slack.
+    let cdim = (width / mcw).ceil();
+    let cw = width / cdim;
+    let per_particle = (width.length() / cw.min_element()).ceil() as u64 + 4;
+    let budget = n as u64 * per_particle + 16;
+    let nn = match with_budget(budget, move || lib::space_knn(anchor, width, mcw, &pts, k)) {
+        Ok((x, steps)) => {
+            KNN_STEPS.with(|s| s.set(s.get() + steps));
+            x
+        }
+        Err(e) => return Err(format!("knn {}", e)),
+    };
     if nn.len() != n {
         return Err(format!("knn returned {} lists for {} particles", nn.len(), n));
     }
@@ -524,7 +577,11 @@ pub fn cmd_c20(args: &Args) -> i32 {
     let skip_pure = args.flag("skip-pure");
     let known: BTreeSet<String> = args.str("known", "").split(',').filter(|s| !s.is_empty()).map(|s| s.to_string()).collect();
     lib::set_hash_order(Some(seam));
+    lib::set_sched_point(Some(step_hook));
     let t0 = Instant::now();
+    let real_calls_per_set = args.u64("real-ahash-calls", 6);
+    let mut real_ahash_calls = 0u64;
+    let mut real_ahash_order_sensitive = 0u64;
 
     let mut sets = 0u64;
     let mut orders = 0u64;
@@ -564,6 +621,8 @@ pub fn cmd_c20(args: &Args) -> i32 {
         let idx = start + kk * stride;
         let tc = Instant::now();
         let _guard = SlowGuard(idx, tc);
+        // progress marker: if this process dies or hangs the launcher knows which case to re-run alone
+        let _ = std::fs::write(format!("{}/c20_shard_{}.progress", out, shard), format!("{}\n", idx));
         let mut rng = Rng::new(mix(seed, idx, 0xC20));
         // ---- simulated clause: Epos6 under every hash order ------------------
         let (fam, pts) = gen_points(&mut rng, max_n);
@@ -630,6 +689,44 @@ pub fn cmd_c20(args: &Args) -> i32 {
             }
         }
 
+        // ---- supplementary: the REAL ahash order, natively (seam off) -------------
+        // Every `HashSet::new()` draws a fresh key, so repeated calls see different
+        // orders. Uncontrolled, hence never decisive on its own, but a miss is a miss:
+        // it also covers hash-ordered iteration that does not pass through the seam.
+        if real_calls_per_set > 0 {
+            lib::set_hash_order(None);
+            let mut bad: Option<String> = None;
+            let mut distinct = BTreeSet::new();
+            for _ in 0..real_calls_per_set {
+                real_ahash_calls += 1;
+                match std::panic::catch_unwind(|| lib::epos6_points(&pts)) {
+                    Err(_) => {
+                        bad.get_or_insert("panicked".into());
+                    }
+                    Ok((c, rad)) => {
+                        distinct.insert([c.x.to_bits(), c.y.to_bits(), c.z.to_bits(), rad.to_bits()]);
+                        if let Err(e) = contains_all(c, rad, &pts) {
+                            bad.get_or_insert(e);
+                        }
+                    }
+                }
+            }
+            lib::set_hash_order(Some(seam));
+            if distinct.len() > 1 {
+                real_ahash_order_sensitive += 1;
+            }
+            if let Some(e) = bad {
+                let payload = J::obj()
+                    .set("points", pts_json(&pts))
+                    .set("family", J::s(&fam))
+                    .set("replay", J::s("probabilistic: the real ahash order is drawn per call; the replay repeats the call"));
+                if report("epos6_real_ahash", idx, &e.replace(' ', "_"), payload, &mut violations, &mut known_hits) {
+                    code = 1;
+                    break;
+                }
+            }
+        }
+
         if skip_pure {
             continue;
         }
@@ -655,6 +752,38 @@ pub fn cmd_c20(args: &Args) -> i32 {
                     code = 1;
                     break;
                 }
+            }
+        }
+        // minimality on a small subset of the structured set (any family), under a few
+        // input orders: the minimal sphere is unique, so the order must not matter
+        {
+            let mut sub: Vec<DVec3> = pts.clone();
+            rng.shuffle(&mut sub);
+            sub.truncate(2 + rng.below(7) as usize);
+            if rng.chance(0.15) {
+                // special positions: the origin, a point on an axis
+                let at = rng.below(sub.len() as u64 + 1) as usize;
+                sub.insert(at, if rng.chance(0.5) { DVec3::ZERO } else { DVec3::new(rng.sym(), 0.0, 0.0) });
+                let mut seen = BTreeSet::new();
+                sub.retain(|p| seen.insert([(p.x + 0.0).to_bits(), (p.y + 0.0).to_bits(), (p.z + 0.0).to_bits()]));
+            }
+            let mut failed = false;
+            for rep in 0..3 {
+                if rep > 0 {
+                    rng.shuffle(&mut sub);
+                }
+                *pure.entry("welzl_minimality_structured".into()).or_insert(0) += 1;
+                if let Err(e) = check_welzl(&sub, true) {
+                    let payload = J::obj().set("points", pts_json(&sub)).set("minimal", J::Bool(true)).set("family", J::s(&fam));
+                    if report("welzl_structured", idx, &e.replace(' ', "_"), payload, &mut violations, &mut known_hits) {
+                        code = 1;
+                        failed = true;
+                    }
+                    break;
+                }
+            }
+            if failed {
+                break;
             }
         }
         // sphere of spheres
@@ -711,14 +840,18 @@ pub fn cmd_c20(args: &Args) -> i32 {
         .set("known_finding_hits", J::Obj(known_hits.into_iter().map(|(k, v)| (k, J::u(v))).collect()))
         .set("samples", J::Arr(samples))
         .set("violations", J::Arr(violations))
+        .set("real_ahash_calls", J::u(real_ahash_calls))
+        .set("real_ahash_order_sensitive_sets", J::u(real_ahash_order_sensitive))
+        .set("knn_ring_steps", J::u(KNN_STEPS.with(|s| s.get())))
         .set("wall_s", J::Num(t0.elapsed().as_secs_f64()));
     let _ = std::fs::create_dir_all(&out);
     let _ = std::fs::write(format!("{}/c20_shard_{}.json", out, shard), j.pretty());
     code
 }
 
-pub fn replay(j: &J, path: &str, _args: &Args) -> i32 {
+pub fn replay(j: &J, path: &str, args: &Args) -> i32 {
     lib::set_hash_order(Some(seam));
+    lib::set_sched_point(Some(step_hook));
     let clause = j.get("clause").and_then(|c| c.as_str()).unwrap_or("");
     let res: Result<(), String> = (|| match clause {
         "epos6_order" => {
@@ -729,7 +862,27 @@ pub fn replay(j: &J, path: &str, _args: &Args) -> i32 {
             println!("replayed Epos6 with order {:?}", ord);
             r
         }
-        "welzl" => {
+        "epos6_real_ahash" => {
+            let pts = pts_from(j.get("points").ok_or("points missing")?)?;
+            lib::set_hash_order(None);
+            let reps = args.u64("reps", 5000);
+            let mut r = Ok(());
+            for i in 0..reps {
+                let res = std::panic::catch_unwind(|| lib::epos6_points(&pts));
+                let e = match res {
+                    Err(_) => Err("panicked".to_string()),
+                    Ok((c, rad)) => contains_all(c, rad, &pts),
+                };
+                if e.is_err() {
+                    println!("replayed Epos6 with the real ahash order: failed at attempt {}", i);
+                    r = e;
+                    break;
+                }
+            }
+            lib::set_hash_order(Some(seam));
+            r
+        }
+        "welzl" | "welzl_structured" => {
             let pts = pts_from(j.get("points").ok_or("points missing")?)?;
             check_welzl(&pts, j.get("minimal").and_then(|m| m.as_bool()).unwrap_or(false))
         }
